@@ -64,7 +64,7 @@ def op_to_harness(o):
     if kind == "hold":
         arg = {"k": o["k"]}
     elif kind == "split":
-        arg = {"n": o["k"]}
+        arg = {"n": 2, "ranges": [[0, 4], [2, 6]]} if o["k"] == 20 else {"n": o["k"]}
     elif kind.startswith("rw_") or kind.startswith("inj_"):
         arg = {"what": kind}
         kind = "rw"
@@ -143,8 +143,15 @@ def _unit(pos, total):
     return max(0, min(6, round(6 * pos / max(1, total))))
 
 
+MAX_EVENTS = 260   # per scenario: a prefix of an acceptable trace is acceptable; what matters happens early
+
+
 def normalise(outcome):
-    """Hook + proxy events of one scenario -> events of Trace_DtlsHandshake (see its header)."""
+    """Hook + proxy events of one scenario -> events of Trace_DtlsHandshake (see its header), capped."""
+    return _normalise(outcome)[:MAX_EVENTS]
+
+
+def _normalise(outcome):
     sc = outcome["scenario"]
     evs = outcome.get("events", [])
     out = [{"ev": "reset", "id": outcome["id"],
@@ -312,11 +319,15 @@ CHECK_DEADLOCK FALSE
 """)
 
 
-def _tlc_trace(ck, trace_path, deviations, props, tag, **cfgkw):
+class TraceTimeout(Exception):
+    pass
+
+
+def _tlc_trace(ck, trace_path, deviations, props, tag, timeout=150, **cfgkw):
     cfg = os.path.join(vlib.SPEC, f"Trace_DtlsHandshake_{tag}_{os.getpid()}.gen.cfg")
     write_trace_cfg(cfg, deviations, props, **cfgkw)
     try:
-        res = vlib.tlc("Trace_DtlsHandshake", os.path.basename(cfg), workers=1, timeout=900, seed_arg=False,
+        res = vlib.tlc("Trace_DtlsHandshake", os.path.basename(cfg), workers=1, timeout=timeout, seed_arg=False,
                        tag=f"trace_{tag}", heap="4g",
                        env={"TRACE": trace_path,
                             "JAVA_TOOL_OPTIONS": "-Dtlc2.tool.queue.IStateQueue=StateDeque"})
@@ -335,60 +346,88 @@ def _tlc_trace(ck, trace_path, deviations, props, tag, **cfgkw):
             idx, js = body.split(", ", 1)
             verdict = ("rejected", int(idx))
     if verdict is None:
+        if res.get("timeout") or res["rc"] == 124:
+            raise TraceTimeout(f"trace validation of {trace_path} timed out after {timeout}s")
         vlib.log("\n".join(res["raw_tail"][-40:]))
         raise vlib.ToolError(f"trace validation produced no verdict (rc={res['rc']}, errors={res['errors'][:2]})")
     return verdict, res
 
 
-def validate_traces(ck, outcomes, deviations, tag, props=None, max_rejections=6, **cfgkw):
-    """Validate the normalised traces of all outcomes. Returns (n_accepted, rejections, tlc_results) where a
-    rejection is {id, index, event, rule, events_before}. The rule is found by switching rule tags off."""
+def validate_traces(ck, outcomes, deviations, tag, props=None, max_rejections=6, chunk=80, chunk_timeout=150, **cfgkw):
+    """Validate the normalised traces of all outcomes, in chunks with a timeout each (one pathological trace cannot
+    eat the budget). Returns (n_accepted, rejections, tlc_results); a rejection is {id, index, event, rule, before}.
+    The rule is found by switching rule tags off. Chunks that time out are halved once; what still times out is
+    listed in ck.trace_timeouts (the caller decides whether that is a tool error)."""
     props = list(props or ALL_RULES)
     per = [(o["id"], normalise(o)) for o in outcomes if "panic" not in o]
-    rejections = []
-    results = []
+    rejections, results = [], []
     accepted = 0
-    todo = per
     classified = {}
-    while todo:
-        if len(rejections) >= max_rejections:
-            # enough to report; the rest stays unvalidated (said so in the evidence notes)
-            ck.notes.append(f"trace validation stopped after {len(rejections)} rejections; {len(todo)} traces not validated")
-            break
-        path = os.path.join(ck.dir, f"trace_{tag}.ndjson")
-        rows = []
-        owner = []
-        for sid, evs in todo:
-            for e in evs:
-                rows.append(e)
-                owner.append(sid)
-        vlib.write_ndjson(path, rows)
-        (verdict, idx), res = _tlc_trace(ck, path, deviations, props, tag, **cfgkw)
-        results.append(res)
-        if verdict == "accepted":
-            accepted += len(todo)
-            break
-        sid = owner[idx - 1]
-        pos = [k for k, (s, _) in enumerate(todo) if s == sid][0]
-        evs = todo[pos][1]
-        local = idx - 1 - sum(len(e) for _, e in todo[:pos])
-        accepted += pos
-        # which rule rejected it: the single tag whose removal lets this scenario pass further
-        rule = "unexplained"
-        klass = (evs[local]["ev"], evs[local].get("inst"), evs[local].get("t"), evs[local].get("disp"),
-                 evs[local].get("why"))
-        if klass in classified:
-            rule = classified[klass]
-        else:
-            single = os.path.join(ck.dir, f"trace_{tag}_one.ndjson")
-            vlib.write_ndjson(single, evs)
-            for tagname in props:
-                (v2, i2), _ = _tlc_trace(ck, single, deviations, [p for p in props if p != tagname], tag + "_r", **cfgkw)
-                if v2 == "accepted" or (i2 is not None and i2 - 1 > local):
-                    rule = tagname
-                    break
-            classified[klass] = rule
-        rejections.append({"id": sid, "index": local, "event": evs[local], "rule": rule,
-                           "before": evs[max(0, local - 6):local]})
-        todo = todo[pos + 1:]
+    if not hasattr(ck, "trace_timeouts"):
+        ck.trace_timeouts = []
+    queue = [per[i:i + chunk] for i in range(0, len(per), chunk)]
+    while queue:
+        todo = queue.pop(0)
+        while todo:
+            if len(rejections) >= max_rejections:
+                rest = len(todo) + sum(len(q) for q in queue)
+                ck.notes.append(f"trace validation stopped after {len(rejections)} rejections; {rest} traces not validated")
+                return accepted, rejections, results
+            path = os.path.join(ck.dir, f"trace_{tag}.ndjson")
+            rows, owner = [], []
+            for sid, evs in todo:
+                for e in evs:
+                    rows.append(e)
+                    owner.append(sid)
+            vlib.write_ndjson(path, rows)
+            try:
+                (verdict, idx), res = _tlc_trace(ck, path, deviations, props, tag, timeout=chunk_timeout, **cfgkw)
+            except TraceTimeout:
+                if len(todo) > 1:
+                    h = len(todo) // 2
+                    queue[0:0] = [todo[:h], todo[h:]]
+                else:
+                    ck.trace_timeouts.append(todo[0][0])
+                break
+            results.append(res)
+            if verdict == "accepted":
+                accepted += len(todo)
+                break
+            sid = owner[idx - 1]
+            pos = [k for k, (s_, _) in enumerate(todo) if s_ == sid][0]
+            evs = todo[pos][1]
+            local = idx - 1 - sum(len(e) for _, e in todo[:pos])
+            accepted += pos
+            # which rule rejected it: the single tag whose removal lets this scenario pass further
+            rule = "unexplained"
+            klass = (evs[local]["ev"], evs[local].get("inst"), evs[local].get("t"), evs[local].get("disp"),
+                     evs[local].get("why"))
+            if klass in classified:
+                rule = classified[klass]
+            else:
+                single = os.path.join(ck.dir, f"trace_{tag}_one.ndjson")
+                vlib.write_ndjson(single, evs)
+                for tagname in props:
+                    try:
+                        (v2, i2), _ = _tlc_trace(ck, single, deviations, [p for p in props if p != tagname], tag + "_r",
+                                                 timeout=60, **cfgkw)
+                    except TraceTimeout:
+                        continue
+                    if v2 == "accepted" or (i2 is not None and i2 - 1 > local):
+                        rule = tagname
+                        break
+                classified[klass] = rule
+            rejections.append({"id": sid, "index": local, "event": evs[local], "rule": rule,
+                               "before": evs[max(0, local - 6):local]})
+            todo = todo[pos + 1:]
     return accepted, rejections, results
+
+
+def finish_validation(ck):
+    """A validation timeout is a tool error only if nothing else was found (then the verdict would rest on it)."""
+    t = getattr(ck, "trace_timeouts", [])
+    if not t:
+        return
+    ck.notes.append(f"trace validation timed out for {len(t)} traces (not validated): {t[:5]}")
+    if not ck.violations and not ck.known_hits:
+        raise vlib.ToolError(f"trace validation timed out for {len(t)} traces and no other finding exists: {t[:3]}")
